@@ -71,4 +71,8 @@ IndInv ==
 \* (= MaxViewConstraint /\ MaxUndeliveredMessageConstraint).
 IndInit == TypeGen /\ IndInv /\ ModelConstraint
 Target == TypeOK /\ InvTwoBlocksAccepted /\ InvDeadlock /\ InvFaultNodesCount
+
+\* Non-vacuity probe, expected to be VIOLATED: Apalache must exhibit a state of IndInit
+\* in which two nodes have accepted a block (so IndInit is not empty / trivial).
+VacuityProbe == Cardinality({r \in RM: rmState[r].type = "blockAccepted"}) < 2
 =============================================================================
